@@ -132,6 +132,44 @@ def run_stream(alpha, views, seq, mode, res, viol):
         res["streams"] = res.get("streams", 0) + 1
 
 
+def run_raw_nonascii(res, viol):
+    """liveness only (I-8): a peer that sends raw UTF-8 or ISO-8859-1 bytes in labels / values must not stop the
+    receive loop, whatever the fragmentation; the ASCII parts of the stream must still be mirrored"""
+    from indi.transport.client.tcp import ConnectionHandler
+
+    from mc.core import vloop as V
+
+    text = ('<defTextVector device="D1" name="V1" state="Ok" perm="rw" label="Temp\u00e9rature \u00b0C \u2603"><defText name="a" label="\u00b5">t1</defText></defTextVector>'
+            '<setTextVector device="D1" name="V1" state="Busy"><oneText name="a">t2</oneText></setTextVector>')
+    for enc in ("utf-8", "latin-1"):
+        data = text.encode(enc, "xmlcharrefreplace")
+        feeds = [[data], [bytes([b]) for b in data]] + [[data[:c], data[c:]] for c in range(1, len(data))]
+        for pieces in feeds:
+            loop = V.VLoop().install()
+            try:
+                rc = CC.RealClient(False)
+                ep = V.Endpoint(loop, "c")
+                h = ConnectionHandler(ep.reader, ep.writer, rc.client.process_message)
+                task = loop.create_task(h.wait_for_messages())
+                loop.quiesce()
+                for p in pieces:
+                    ep.feed(p)
+                    loop.quiesce()
+                res["transitions"] += len(pieces)
+                rep = {"kind": "raw", "enc": enc, "pieces": [len(p) for p in pieces]}
+                if task.done():
+                    exc = task.exception() if not task.cancelled() else None
+                    viol("receive-loop-stopped", "raw-%s-bytes,%s" % (enc, type(exc).__name__ if exc else "returned"), "pieces %r: %r" % ([len(p) for p in pieces][:6], exc), rep)
+                else:
+                    dev = rc.client.get_device("D1")
+                    vec = dev.get_vector("V1") if dev else None
+                    if vec is None or vec.state != "Busy" or vec.get_element("a") is None or vec.get_element("a").value != "t2":
+                        viol("mirror-differs-after-stream", "raw-%s-bytes" % enc, "pieces %r: ASCII parts of the stream not mirrored" % ([len(p) for p in pieces][:6],), rep)
+            finally:
+                loop.teardown()
+            res["streams"] = res.get("streams", 0) + 1
+
+
 def run_shard(shard):
     tier, what = shard[0], shard[1]
     alpha, order = graph(tier)
@@ -162,6 +200,8 @@ def run_shard(shard):
             res["counters"]["model_states"] = len(order)
             res["counters"]["max_depth"] = max(len(p) for _, p in order)
     else:
+        if shard[2] == 0:
+            run_raw_nonascii(res, viol)
         for seq, mode in stream_cases(alpha, shard[2], 8, tier):
             run_stream(alpha, views, seq, mode, res, viol)
     res["violations"] = list(sig.values())
@@ -195,7 +235,9 @@ def replay(rep):
     def viol(clause, disc, what, replay):
         out.append({"clause": clause, "disc": disc, "what": what})
 
-    if rep["kind"] == "graph":
+    if rep["kind"] == "raw":
+        run_raw_nonascii(res, viol)
+    elif rep["kind"] == "graph":
         check_transition(alpha, views, tuple(rep["path"]), rep["msg"], rep["snoop"], res, viol)
     else:
         run_stream(alpha, views, tuple(rep["seq"]), "chunks", res, viol)
